@@ -166,6 +166,8 @@ class Scheduler(object):
     return self.now
 
   def sleep(self, dt):
+    if dt < 0:
+      raise ValueError('sleep length must be non-negative')     # as time.sleep() does
     t = self.me()
     if t is None:
       self.now += dt
